@@ -43,7 +43,7 @@ def doCall (r : Run) (k : Nat) (addr : Nat) (form : String) (hold : Bool) : Run 
       let s := step (step s (.stamp id)) (.fail id)
       { r with s := s, calls := r.calls ++ [{ k := k, addr := addr, form := form, done := true, err := "shutdown" }] }
     else
-      let carried := if form == "ping" then none else some id
+      let carried := if form == "ping" || form == "stream" then none else some id
       if hold then
         let s := step s (.callBegin id)
         { r with s := s, calls := r.calls ++ [{ k := k, addr := addr, form := form, connId := carried, heldOn := some id }] }
@@ -101,7 +101,7 @@ def action (r : Run) (toks : List String) : Option Run :=
     | some k =>
       if form == "long" then some (doCall r k (addrOf a) "call" true)
       else if form == "callnb" then some (doCall r k (addrOf a) "call" false)
-      else if form == "call" || form == "go" || form == "rt" || form == "ping" then some (doCall r k (addrOf a) form false)
+      else if form == "call" || form == "go" || form == "rt" || form == "ping" || form == "stream" then some (doCall r k (addrOf a) form false)
       else none
     | none => none
   | ["finish", k] => k.toNat?.map (finishCall r)
